@@ -148,8 +148,22 @@ Example C12_groups_example :
   groups_by list_nat_eqb (reduce_key [2; 3; 2]%nat [1]%nat) 12 = [[0; 2; 4]; [1; 3; 5]; [6; 8; 10]; [7; 9; 11]]%nat.
 Proof. vm_compute. split; reflexivity. Qed.
 
+(* DenseGeneral / LinearGeneral (no batch_dims): the model is the stated contraction over the flat tensors; the order in which
+   the contracted axes are written is irrelevant (kernel dimensions follow them in ascending order) *)
+Theorem C12_dense_general_axes_order : forall xshape axes axes' fshape x k bias, Permutation.Permutation axes axes' ->
+  dense_general xshape axes fshape x k bias = dense_general xshape axes' fshape x k bias.
+Proof. exact dense_general_axes_order. Qed.
+Print Assumptions C12_dense_general_axes_order.
+Theorem C12_dense_general_shape : forall xshape axes fshape x k bias,
+  length (dense_general xshape axes fshape x k bias) = prod (dense_general_oshape xshape axes fshape).
+Proof. exact dense_general_length. Qed.
+Example C12_dense_general_example :
+  dense_general [2; 3]%nat [1]%nat [2]%nat [1; 2; 3; 4; 5; 6] [1; 0; 0; 1; 1; 1] (Some [10; 20]) = [14; 25; 20; 31] /\
+  dense_general [2; 2; 2]%nat [2; 0]%nat [1]%nat [1; 2; 3; 4; 5; 6; 7; 8] [1; 10; 100; 1000] None = [6521; 8743].
+Proof. vm_compute. split; reflexivity. Qed.
+
 (* NOT proved (decided per run against the independent numpy reference and, for Dense / Conv1D / Embed / pooling /
-   BatchNorm statistics, against this model): DenseGeneral / Einsum axis arithmetic, 2-D ConvTranspose, ConvLocal,
+   BatchNorm statistics, against this model): DenseGeneral batch_dims, Einsum axis arithmetic, 2-D ConvTranspose, ConvLocal,
    Dropout, Linen = NNX. *)
 Example C12_example :
   let c := mkConv [[[1]; [0]]; [[0]; [2]]; [[1]; [1]]] (Some [1]) 2 1 1 2 1 in
